@@ -79,6 +79,11 @@ func (ch *ConnectionHandler) acceptStream() {
 		stream, err := ch.session.AcceptStream()
 		if err == os.ErrClosed || err == io.EOF {
 			log.Debugf("Stream closed, existing loop.")
+			// The carrier is at its end, but the session (its sender, shaper and keep-alive
+			// loops, and the carrier's descriptor) lives on until it is closed.
+			if !ch.session.IsClosed() {
+				streams.TryClose(ch.session)
+			}
 			return
 		} else if err != nil {
 			// Every error returned here means that the session is gone (closed pipe, broken
